@@ -814,6 +814,13 @@ type perConnPlain struct {
 	udp  chan connDone
 }
 
+func firstLine(l [][]byte) []byte {
+	if len(l) == 0 {
+		return nil
+	}
+	return l[0]
+}
+
 func newPerConn() *perConnPlain {
 	h := &perConnPlain{tcp: map[string]connDone{}, udp: make(chan connDone, 64)}
 	h.cond = sync.NewCond(&h.mu)
@@ -1079,6 +1086,83 @@ func (c *checker) listenerPhase() {
 			break // results could no longer be attributed to datagrams
 		}
 	}
+	// ---- udp bursts: several datagrams back to back (a handler that is still busy with one datagram while
+	// the next ones arrive must not mix, lose-and-duplicate or alter them). Every datagram is tagged, so a
+	// result identifies its datagram; a datagram that never shows up may have been dropped by the kernel
+	// (counted, nothing concluded), a datagram that shows up twice or altered is a violation.
+	nBurst := scale(mon.N(60, 1500))
+	burstDgrams, burstLost := 0, 0
+	for bi := 0; bi < nBurst && lost == 0; bi++ {
+		if !mon.Mine(bi) {
+			continue
+		}
+		r := mon.NewRng(seed, 1235, uint64(bi))
+		nb := r.Range(3, 12)
+		want := map[string][][]byte{}
+		var order []string
+		res.LogCase("udp-burst %d datagrams=%d", bi, nb)
+		for j := 0; j < nb; j++ {
+			tag := fmt.Sprintf("ub%d_%d", bi, j)
+			var b bytes.Buffer
+			nl := r.Range(1, 150)
+			for x := 0; x < nl; x++ {
+				fmt.Fprintf(&b, "%s.m%d %d %d", tag, x, x, 1600000000+x)
+				if x < nl-1 || r.Bool() {
+					if r.Chance(1, 6) {
+						b.WriteString("\r\n")
+					} else {
+						b.WriteByte('\n')
+					}
+				}
+			}
+			want[tag] = oracle.Split(b.Bytes())
+			order = append(order, tag)
+			uc.Write(b.Bytes())
+		}
+		seen := map[string]int{}
+		idle := time.NewTimer(3 * time.Second)
+	collect:
+		for got := 0; got < nb; {
+			select {
+			case d := <-h.udp:
+				got++
+				if !idle.Stop() {
+					select {
+					case <-idle.C:
+					default:
+					}
+				}
+				idle.Reset(3 * time.Second)
+				tag := ""
+				if len(d.lines) > 0 {
+					if k := bytes.IndexByte(d.lines[0], '.'); k > 0 {
+						tag = string(d.lines[0][:k])
+					}
+				}
+				w, known := want[tag]
+				if !known {
+					res.Violate("udp-burst:foreign", fmt.Sprintf("burst %d: a datagram was handled whose first line %.60q belongs to no datagram of the burst", bi, firstLine(d.lines)), map[string]interface{}{"burst": bi, "datagrams": nb})
+					break collect
+				}
+				seen[tag]++
+				if seen[tag] > 1 {
+					res.Violate("udp-burst:duplicated", fmt.Sprintf("burst %d of %d datagrams sent back to back: datagram %s was processed twice", bi, nb, tag), map[string]interface{}{"burst": bi, "datagrams": order, "seen": seen})
+					break collect
+				}
+				burstDgrams++
+				c.judge("udp", d.lines, w, func() map[string]interface{} {
+					return map[string]interface{}{"udp_burst": bi, "datagram": tag, "datagrams_in_burst": nb}
+				})
+			case <-idle.C:
+				burstLost += nb - got
+				break collect
+			}
+		}
+		res.Eval(1)
+		res.NonTrivial(fmt.Sprintf("udp-burst/%d", bi))
+	}
+	res.Count("udp_burst_datagrams_checked", burstDgrams)
+	res.Count("udp_burst_datagrams_not_seen", burstLost)
 	uc.Close()
 	fmt.Printf("  listener/udp: %.1fs\n", time.Since(tPh).Seconds())
 	if lost > 0 {
@@ -1100,6 +1184,7 @@ func (c *checker) listenerPhase() {
 	var wg2 sync.WaitGroup
 	sem := make(chan struct{}, 24)
 	stalls, stallsTimeoutSeen, stallsVoid := 0, 0, 0
+	resumedAfterTimeout := 0
 	for i := 0; i < nTO; i++ {
 		if !mon.Mine(i) {
 			continue
@@ -1155,8 +1240,25 @@ func (c *checker) listenerPhase() {
 			if insideLine(s, k) {
 				res.NonTrivial(fmt.Sprintf("tcp-timeout/%d", i))
 			}
-			c.judge("tcp", d.lines, oracle.Split(s[:d.read]), func() map[string]interface{} {
-				return map[string]interface{}{"tcp_timeout_case": i, "stream": streamWitness(s), "bytes_sent_before_stalling": k, "bytes_read_by_the_handler": d.read, "read_timeout": stallTimeout.String(), "handler_returned": fmt.Sprint(d.err)}
+			lines, read := d.lines, d.read
+			resumed := false
+			if i%2 == 0 && d.read == k && k < len(s) {
+				// the client comes back after the pause and sends the rest. A relay that ended the stream at the
+				// timeout never sees it; one that keeps the connection must not have cut a line in two at the pause:
+				// whatever it dispatches for this connection in total must be the lines of what it read in total.
+				conn.Write(s[k:])
+				conn.CloseWrite()
+				if d2, ok := ht.waitTCP(conn.LocalAddr().String(), 5*stallTimeout); ok {
+					resumed = true
+					lines = append(append([][]byte{}, d.lines...), d2.lines...)
+					read = d.read + d2.read
+					mu.Lock()
+					resumedAfterTimeout++
+					mu.Unlock()
+				}
+			}
+			c.judge("tcp", lines, oracle.Split(s[:read]), func() map[string]interface{} {
+				return map[string]interface{}{"tcp_timeout_case": i, "stream": streamWitness(s), "bytes_sent_before_stalling": k, "bytes_read_by_the_handler": read, "read_timeout": stallTimeout.String(), "handler_returned": fmt.Sprint(d.err), "handler_ran_again_after_the_timeout": resumed}
 			})
 			res.Eval(1)
 		}(i, s, k)
@@ -1164,6 +1266,7 @@ func (c *checker) listenerPhase() {
 	wg2.Wait()
 	lt.Stop()
 	res.Count("tcp_stalled_connections", stalls)
+	res.Count("tcp_connections_handled_again_after_a_timeout", resumedAfterTimeout)
 	res.Count("tcp_stalled_connections_timed_out_with_data_still_pending", stallsVoid)
 	res.Count("tcp_stalled_connections_ended_by_timeout_after_all_sent_bytes", stallsTimeoutSeen)
 	res.Floor("tcp_stalled_connections_ended_by_timeout_after_all_sent_bytes", stallsTimeoutSeen, mon.N(60, 1400)*scalePct()/100)
